@@ -117,4 +117,10 @@ TEXT = {
         "level_note": TRUST,
         "technique": "property-based testing of a call-log invariant with instrumented value types (rapid)",
     },
+    "C20": {
+        "level_text": "Stress-style property-based testing under the race detector: generated batches of independent applications are built and run sequentially (twice, in two orders) and concurrently (one goroutine each, several rounds, GOMAXPROCS 2 and 16); per-application outcome records must be identical in all executions and the race detector must stay silent. Interleavings are sampled by the Go scheduler, not enumerated - the weakest level among the checks, and stated as such.",
+        "design_ref": "DESIGN.md section 5 (C20)",
+        "level_note": TRUST + " Schedules are not controlled; a data race or cross-talk that needs a rare interleaving can be missed. The race detector only sees executed accesses.",
+        "technique": "property-based generation of application batches, sequential/concurrent outcome comparison under go's race detector (rapid)",
+    },
 }
